@@ -204,7 +204,16 @@ def run(ctx):
         n_id = 0
         for name_, mfi in sorted(ctx.methods("HyMMSBM").items()):
             mv = ctx.view(mfi)
-            ident = [c for c in walk_no_nested(mfi.node) if isinstance(c, ast.Compare) and len(c.ops) == 1 and isinstance(c.ops[0], (ast.Is, ast.IsNot)) and any(is_self_attr(x, p_) for p_ in PARAMS for x in (c.left, c.comparators[0])) and not any(isinstance(x, ast.Constant) and x.value is None for x in (c.left, c.comparators[0]))]
+            def is_param_ref(x):
+                """self.u / self.w, or a local bound to one of them (`u, w = self.u, self.w`)"""
+                if any(is_self_attr(x, p_) for p_ in PARAMS):
+                    return True
+                if isinstance(x, ast.Name):
+                    r_ = mv.resolve(x)
+                    return r_ is not x and any(is_self_attr(r_, p_) for p_ in PARAMS)
+                return False
+
+            ident = [c for c in walk_no_nested(mfi.node) if isinstance(c, ast.Compare) and len(c.ops) == 1 and isinstance(c.ops[0], (ast.Is, ast.IsNot)) and any(is_param_ref(x) for x in (c.left, c.comparators[0])) and not any(isinstance(x, ast.Constant) and x.value is None for x in (c.left, c.comparators[0]))]
             stores_attr = [x for x in walk_no_nested(mfi.node) if isinstance(x, ast.Assign) and any(is_self_attr(t) and t.attr not in PARAMS for t in x.targets)]
             for c in ident:
                 n_id += 1
